@@ -7,6 +7,8 @@
 pub static mut MODEL_REENTRANT: bool = false;
 /// Ghost: number of initialiser closures that were entered.
 pub static mut MODEL_INIT_RUNS: usize = 0;
+/// Ghost: > 0 while an initialiser closure passed to `get_or_try_init` is running.
+pub static mut MODEL_IN_INIT: usize = 0;
 
 pub mod sync {
     use std::cell::{Cell, UnsafeCell};
@@ -30,7 +32,9 @@ pub mod sync {
             if self.initializing.get() { unsafe { super::MODEL_REENTRANT = true; } }
             self.initializing.set(true);
             unsafe { super::MODEL_INIT_RUNS += 1; }
+            unsafe { super::MODEL_IN_INIT += 1; }
             let r = f();
+            unsafe { super::MODEL_IN_INIT -= 1; }
             self.initializing.set(false);
             match r {
                 Ok(v) => { unsafe { *self.value.get() = Some(v); } Ok(self.get().unwrap()) }
